@@ -339,6 +339,9 @@ func c14Run(w *W, idx int) {
 
 	// formatter
 	c14Formatter(w, &c14FmtCtx{cc: cc, cfg: cfg, orig: orig, bs: bs, origRes: origRes}, src, true, strat)
+	if idx%16 == 3 {
+		c14RawBytes(w, r)
+	}
 	if r.Intn(2) == 0 {
 		// formatter on a commented, irregular layout of the same program
 		c14Formatter(w, &c14FmtCtx{cc: cc, cfg: cfg, orig: orig, bs: bs, origRes: origRes}, rl.layout(toks, 2), true, strat)
@@ -429,4 +432,70 @@ func firstNToks(t []Tok) string {
 		s = append(s, fmt.Sprintf("%q", tokText(x)))
 	}
 	return strings.Join(s, " ")
+}
+
+// c14RawBytes: source text that is not valid UTF-8 (Latin-1 text, a truncated multi-byte character, binary keys) inside
+// string literals, comments and words. Whatever the lexer makes of such bytes, it makes the same of them after the text
+// went through the formatter and after a re-layout: same compile outcome, same Dump, same results.
+func c14RawBytes(w *W, r *rand.Rand) {
+	raw := []string{"caf\xe9", "\xff\xfe", "a\xc3", "\xe2\x82", "\x80", "ok\xf0\x9f", "\xc0\xaf", "x\xed\xa0\x80y"}
+	pick := func() string { return raw[r.Intn(len(raw))] }
+	srcs := []string{
+		fmt.Sprintf(`(= s0 "%s")`, pick()),
+		fmt.Sprintf(`(in s0 ("%s" "%s" "plain"))`, pick(), pick()),
+		fmt.Sprintf(`(and (= "%s" "%s") b0) ; note %s`, pick(), pick(), pick()),
+		fmt.Sprintf(`(or b0 ; %s`+"\n"+`  (!= s0 "%s"))`, pick(), pick()),
+		fmt.Sprintf(`(= s0   "%s"  )`, pick()+" ( "+pick()),
+	}
+	src := srcs[r.Intn(len(srcs))]
+	cfg := CaseCfg{Opts: OptSet(r.Intn(16)), VarNames: []string{"s0", "b0"}}
+	cc := buildConfig(cfg, nil)
+	orig, ok := c14Compile(w, cc, src, "a source with bytes that are not valid UTF-8")
+	if !ok {
+		return
+	}
+	w.Inc("sources_with_invalid_utf8")
+	var bs []Binding
+	for _, s0 := range []string{"caf\xe9", "caf\ufffd", "\ufffd\ufffd", "\xff\xfe", "plain", "a\xc3"} {
+		bs = append(bs, Binding{Vals: map[string]interface{}{"s0": s0, "b0": r.Intn(2) == 0}})
+	}
+	var origRes []Outcome
+	if orig.err == nil {
+		for _, b := range bs {
+			o, _ := callExpr(orig.e, CallEval, fetcherFor(b, nil), nil, false)
+			w.Evals++
+			origRes = append(origRes, o)
+		}
+	}
+	var out string
+	fo := guard(func() (eval.Value, error) { out = eval.IndentByParentheses(src); return nil, nil })
+	if fo.Panic != nil {
+		w.Fail("formatter-panic/"+normPanic(fo.Panic)+"@"+panicSite(fo.Stack), "IndentByParentheses panicked: %v\ninput: %q", fo.Panic, src)
+		return
+	}
+	for _, text := range []string{out, strings.ReplaceAll(src, " ", "  "), "\t" + src + "\n"} {
+		c, ok := c14Compile(w, cc, text, "a formatted / re-laid-out source with bytes that are not valid UTF-8")
+		if !ok {
+			return
+		}
+		if (c.err == nil) != (orig.err == nil) {
+			w.Fail("formatting-changes-program/raw-bytes", "compile outcome differs: %v for the source, %v for its formatted / re-laid-out text\nsource: %q\ntext:   %q", orig.err, c.err, src, text)
+			return
+		}
+		if c.err != nil {
+			continue
+		}
+		if c.dump != orig.dump {
+			w.Fail("formatting-changes-program/raw-bytes", "formatting (or re-spacing) a source whose string literals hold bytes that are not valid UTF-8 changed the compiled program\nsource: %q\ntext:   %q\ndump before: %q\ndump after:  %q", src, text, oneLine(orig.dump), oneLine(c.dump))
+			return
+		}
+		for i, b := range bs {
+			o, _ := callExpr(c.e, CallEval, fetcherFor(b, nil), nil, false)
+			w.Evals++
+			if !outcomeEq(origRes[i], o) {
+				w.Fail("formatting-changes-result/raw-bytes", "formatted text evaluates differently: %s vs %s\nsource: %q\ntext:   %q\nbinding: %s", origRes[i], o, src, text, b)
+				return
+			}
+		}
+	}
 }
